@@ -82,6 +82,7 @@ class Mod:
             from . import names
             if not os.environ.get("LXS_NO_INLINE"):
                 names.canon_counters(self.tree)
+                names.split_tuple_assign(self.tree)
                 self.inlined = names.inline_new_helpers(self.tree, rel)
                 if self.inlined:
                     _nm.canon_consts(self.tree)
